@@ -379,6 +379,19 @@ def skipComment : List Tok → Option (List Tok)
   | .closebrack :: r => some r
   | _ :: r => skipComment r
 
+/-- `parseUnsupportedCommand`: skip up to and including the next `;`; EOF is an error -/
+def skipCommand : List Tok → Option (List Tok)
+  | [] => none
+  | .endcmd :: r => some r
+  | _ :: r => skipCommand r
+
+/-- `parseUnsupportedBlock`: skip up to the next END, which must be followed by `;` -/
+def skipBlock : List Tok → PRes (List Tok)
+  | [] => .err
+  | .kw .end_ _ :: .endcmd :: r => .ok r
+  | .kw .end_ _ :: _ => .err
+  | _ :: r => skipBlock r
+
 def insertLabel (l : List String) (s : String) : List String := if l.contains s then l else l ++ [s]
 
 /-- value of a token that `isInt64` accepted (`strconv.ParseInt`) -/
@@ -425,7 +438,11 @@ def parseTaxa : Nat → List Tok → Int → List String → PRes ((Int × List 
       (match skipComment r with
        | some r' => parseTaxa f r' ntax labs
        | none => .err)
-    | _ :: _ => .unsupported
+    | _ :: r =>
+      -- any other command of the block: skipped up to its `;`
+      (match skipCommand r with
+       | some r' => parseTaxa f r' ntax labs
+       | none => .err)
 
 /-- `parseTranslationTable` (comments inside the table are not followed) -/
 def parseTransl : List Tok → List (String × String) → PRes (List (String × String) × List Tok)
@@ -509,7 +526,10 @@ def parseTrees : Nat → List Tok → TreesAcc → PRes (TreesAcc × List Tok)
       (match skipComment r with
        | some r' => parseTrees f r' a
        | none => .err)
-    | _ :: _ => .unsupported
+    | _ :: r =>
+      (match skipCommand r with
+       | some r' => parseTrees f r' a
+       | none => .err)
 
 structure PState where
   ntax : Int := 0
@@ -529,11 +549,18 @@ def parseLoop : Nat → List Tok → PState → PRes PState
          | .err => .err
          | .unsupported => .unsupported)
       | .kw .trees _ =>
+        -- since fix 82a8873 the trees of every TREES block are kept (appended)
         (match parseTrees f r { transl := st.transl } with
-         | .ok (a, r') => parseLoop f r' { st with trees := some a.trees, transl := a.transl }
+         | .ok (a, r') => parseLoop f r' { st with trees := some (st.trees.getD [] ++ a.trees), transl := a.transl }
          | .err => .err
          | .unsupported => .unsupported)
-      | _ => .unsupported
+      | .kw .data _ => .unsupported
+      | _ =>
+        -- an unsupported block (PAUP, NOTES, FIGTREE, …) is skipped
+        (match skipBlock r with
+         | .ok r' => parseLoop f r' st
+         | .err => .err
+         | .unsupported => .unsupported)
     match toks with
     | [] => .ok st
     | .eol :: r => parseLoop f r st
@@ -593,6 +620,67 @@ def parse (C : NewickCodec) (doc : Txt) : PRes NexDoc :=
          | none => .err
          | some d => .ok d)
   | _ => .err
+
+/-- the main loop of `Parser.Parse` BEFORE fix 82a8873: `treenames, treestrings, err = p.parseTrees()`
+    overwrites what an earlier TREES block delivered -/
+def parseLoopPinned : Nat → List Tok → PState → PRes PState
+  | 0, _, _ => .unsupported
+  | f + 1, toks, st =>
+    let block (t2 : Tok) (r : List Tok) : PRes PState :=
+      match t2 with
+      | .kw .taxa _ =>
+        (match parseTaxa f r (-1) [] with
+         | .ok ((n, l), r') => parseLoopPinned f r' { st with ntax := n, taxlabels := some l }
+         | .err => .err
+         | .unsupported => .unsupported)
+      | .kw .trees _ =>
+        (match parseTrees f r { transl := st.transl } with
+         | .ok (a, r') => parseLoopPinned f r' { st with trees := some a.trees, transl := a.transl }
+         | .err => .err
+         | .unsupported => .unsupported)
+      | .kw .data _ => .unsupported
+      | _ =>
+        -- an unsupported block (PAUP, NOTES, FIGTREE, …) is skipped
+        (match skipBlock r with
+         | .ok r' => parseLoopPinned f r' st
+         | .err => .err
+         | .unsupported => .unsupported)
+    match toks with
+    | [] => .ok st
+    | .eol :: r => parseLoopPinned f r st
+    | .openbrack :: r =>
+      (match skipComment r with
+       | none => .err
+       | some r' =>
+         match r' with
+         | .kw .begin_ _ :: t2 :: .endcmd :: r'' => block t2 r''
+         | .kw .begin_ _ :: _ => .err
+         | [] => .ok st
+         | _ :: r'' => parseLoopPinned f r'' st)
+    | .kw .begin_ _ :: t2 :: .endcmd :: r => block t2 r
+    | .kw .begin_ _ :: _ => .err
+    | _ :: r => parseLoopPinned f r st
+
+
+/-- `Parse()` before fix 82a8873 -/
+def parsePinnedBlocks (C : NewickCodec) (doc : Txt) : PRes NexDoc :=
+  let toks := scan doc
+  if toks.contains .loneCR then .unsupported else
+  match toks with
+  | .kw .nexus _ :: r =>
+    (match parseLoopPinned (r.length + 1) r {} with
+     | .err => .err
+     | .unsupported => .unsupported
+     | .ok st =>
+       if st.ntax != -1 && st.ntax != ((st.taxlabels.getD []).length : Int) then .err else
+       match st.trees with
+       | none => .ok []
+       | some l =>
+         match buildTrees C st.transl st.taxlabels l with
+         | none => .err
+         | some d => .ok d)
+  | _ => .err
+
 
 end Nex
 
@@ -703,18 +791,37 @@ def trim (s : Txt) : Txt :=
 inductive FRes where
   | absent | val (q : Rat) | bad | dup
 
+/-- every occurrence of a repeated float element is unmarshalled into the same pointer: all must
+    parse, the last one stays -/
+def floatVals (N : NumCodec) : List Xml → Option (List Rat)
+  | [] => some []
+  | x :: r =>
+    match N.parse (trim (chardata x.kids).toList), floatVals N r with
+    | some q, some qs => some (q :: qs)
+    | _, _ => none
+
 def floatField (N : NumCodec) (tag : String) (l : List Xml) : FRes :=
   match childrenTagged tag l with
   | [] => .absent
-  | [x] => (match N.parse (trim (chardata x.kids).toList) with | some q => .val q | none => .bad)
-  | _ => .dup
+  | xs =>
+    match floatVals N xs with
+    | none => .bad
+    | some vs => (match vs.getLast? with | some v => .val v | none => .absent)
 
-/-- a string field: absent → "", one occurrence → its character data, several → not followed -/
+/-- a string field: absent → "", otherwise the character data of the LAST occurrence -/
 def strField (tag : String) (l : List Xml) : Option String :=
-  match childrenTagged tag l with
-  | [] => some ""
-  | [x] => some (chardata x.kids)
-  | _ => none
+  match (childrenTagged tag l).getLast? with
+  | none => some ""
+  | some x => some (chardata x.kids)
+
+/-- the `<taxonomy>` children are unmarshalled one after the other into the same struct: a field keeps
+    the value of the last taxonomy element that has it -/
+def taxFields : List Xml → String × String → String × String
+  | [], acc => acc
+  | x :: r, (sci, code) =>
+    let sci' := match (childrenTagged "scientific_name" x.kids).getLast? with | some y => chardata y.kids | none => sci
+    let code' := match (childrenTagged "code" x.kids).getLast? with | some y => chardata y.kids | none => code
+    taxFields r (sci', code')
 
 mutual
 /-- decode a `<clade>` element -/
@@ -723,12 +830,7 @@ def decClade (N : NumCodec) : Xml → Nex.PRes Clade
   | .elem _ _ k =>
     match strField "name" k, floatField N "branch_length" k, floatField N "confidence" k, childrenTagged "taxonomy" k with
     | some name, bl, conf, tax =>
-      let taxo : Option (String × String) := match tax with
-        | [] => some ("", "")
-        | [x] => (match strField "scientific_name" x.kids, strField "code" x.kids with
-                  | some a, some b => some (a, b)
-                  | _, _ => none)
-        | _ => none
+      let taxo : Option (String × String) := some (taxFields tax ("", ""))
       (match taxo, bl, conf with
        | none, _, _ => .unsupported
        | _, .dup, _ => .unsupported
